@@ -157,6 +157,7 @@ const (
 	cbKeyCompare // always installed on reopen when any non-default comparator name is used
 	cbChunked    // values live in memory in chunks: Val is the first chunk, the rest hangs off Transient
 	cbTransform  // BeforeItemWrite encodes the value (XOR), AfterItemRead decodes it: an inverse pair
+	cbNoKeyCmp   // NO KeyCompareForCollection callback: after every open the application installs the comparators itself with SetCollection on the existing names (the documented pattern)
 )
 
 func xorBytes(b []byte) []byte {
@@ -185,7 +186,9 @@ func fullVal(i *gkvlite.Item) []byte {
 
 func (w *World) callbacks() gkvlite.StoreCallbacks {
 	cb := gkvlite.StoreCallbacks{}
-	cb.KeyCompareForCollection = func(name string) gkvlite.KeyCompare { return cmpOfName(name) }
+	if w.cfg&cbNoKeyCmp == 0 {
+		cb.KeyCompareForCollection = func(name string) gkvlite.KeyCompare { return cmpOfName(name) }
+	}
 	if w.cfg&cbItemAlloc != 0 {
 		cb.ItemAlloc = func(c *gkvlite.Collection, keyLength uint32) *gkvlite.Item {
 			it := &gkvlite.Item{Key: make([]byte, keyLength, keyLength+3)}
@@ -964,6 +967,11 @@ func openDigest(w *World, img []byte) (res string) {
 	st, err := gkvlite.NewStoreEx(memfile.FromBytes(img), w.callbacks())
 	if err != nil {
 		return errClass(err)
+	}
+	if w.cfg&cbNoKeyCmp != 0 {
+		for _, n := range st.GetCollectionNames() {
+			st.SetCollection(n, cmpOfName(n))
+		}
 	}
 	d := dumpStore(st)
 	st.Close()
